@@ -1,1 +1,426 @@
-//! harness bodies: engine_state
+//! harness bodies: engine/state.rs (child module of `engine::state`)
+//!
+//! C11: two-node product of the real `PeerState` transition functions.  Node X keeps a real
+//! `PeerState` for peer Y and vice versa; the harness plays the network (requests, replies,
+//! sessions in flight) and the glue of `live.rs` that decides which handler outcome calls `finish`
+//! (table `GLUE`, cross-checked against the MIR of the handlers by the E3 check).
+use iroh::EndpointId;
+
+use super::*;
+use crate::verif_incrate::src::{ck, cv, Src};
+
+// glue of `live.rs` mirrored by `dial_ends` (cross-checked against the handlers' MIR by the E3
+// check): `on_sync_via_connect_finished` calls `state.abort_connect` for
+// `RemoteAbort(AlreadySyncing)` and `on_sync_finished` -> `state.finish` for everything else.
+
+pub fn endpoint_id(bytes: [u8; 32]) -> EndpointId {
+    // EndpointId = iroh::PublicKey = newtype around the 32 compressed bytes; only `as_bytes` order is used
+    unsafe { std::mem::transmute::<[u8; 32], EndpointId>(bytes) }
+}
+
+/// Two distinct node ids in either byte order: a shared symbolic fill byte and two free tail
+/// bytes each (the tie-break only uses the byte-wise order of the two ids).
+fn two_ids<S: Src>(s: &mut S) -> (EndpointId, EndpointId) {
+    let fill = s.u8();
+    let tx: [u8; 2] = s.arr();
+    let ty: [u8; 2] = s.arr();
+    s.assume(tx != ty);
+    let mut a = [fill; 32];
+    let mut b = [fill; 32];
+    a[30] = tx[0];
+    a[31] = tx[1];
+    b[30] = ty[0];
+    b[31] = ty[1];
+    (endpoint_id(a), endpoint_id(b))
+}
+
+fn any_reason<S: Src>(s: &mut S) -> SyncReason {
+    match s.u8() & 3 {
+        0 => SyncReason::DirectJoin,
+        1 => SyncReason::NewNeighbor,
+        2 => SyncReason::SyncReport,
+        _ => SyncReason::Resync,
+    }
+}
+
+fn is_idle(p: &PeerState) -> bool {
+    matches!(p.state, SyncState::Idle)
+}
+fn running_accept(p: &PeerState) -> bool {
+    matches!(p.state, SyncState::Running { origin: Origin::Accept, .. })
+}
+fn running_connect(p: &PeerState) -> bool {
+    matches!(p.state, SyncState::Running { origin: Origin::Connect(_), .. })
+}
+
+/// a pre-built session result (finish only stores it)
+fn result<S: Src>(s: &mut S, ns: NamespaceId, peer: EndpointId) -> Result<SyncFinished> {
+    let _ok = s.bool();
+    // both outcomes take the same path through `finish`; errors are built once, outside loops
+    Ok(SyncFinished { namespace: ns, peer, outcome: Default::default(), timings: Default::default() })
+}
+
+/// An idle slot that already saw a session (a reachable state).  Starting from `Some(..)` keeps
+/// the value that `finish` drops concrete (`Ok` with an empty head map) on every path, so CBMC
+/// never walks B-tree nodes behind a merged pointer (DESIGN.md P12).
+fn fresh_peer(ns: NamespaceId) -> PeerState {
+    let prev = SyncFinished { namespace: ns, peer: endpoint_id([9u8; 32]), outcome: Default::default(), timings: Default::default() };
+    PeerState { state: SyncState::Idle, resync_requested: false, last_sync: Some((Instant::now(), Ok(prev))) }
+}
+
+struct Node {
+    id: EndpointId,
+    peer: PeerState,
+}
+
+/// what the dialer's handler does when its dial ends
+fn dial_ends(n: &mut Node, reason: SyncReason, remote_abort_already_syncing: bool, res: Result<SyncFinished>) -> Option<bool> {
+    if remote_abort_already_syncing {
+        std::mem::forget(res);
+        n.peer.abort_connect();
+        return None;
+    }
+    n.peer.finish(&Origin::Connect(reason), res).map(|(_, resync)| resync)
+}
+
+/// Family A: one dial X -> Y; request lost or delivered; if accepted, both ends of the session
+/// finish independently, in either order, with success or failure.
+pub fn c11_single_dial<S: Src>(s: &mut S) {
+    let ns = NamespaceId::from(&[1u8; 32]);
+    let (idx, idy) = two_ids(s);
+    let mut x = Node { id: idx, peer: fresh_peer(ns) };
+    let mut y = Node { id: idy, peer: fresh_peer(ns) };
+    let reason = any_reason(s);
+    let started = x.peer.start_connect(reason);
+    ck!(s, started, "an idle peer slot always lets a dial start");
+    ck!(s, running_connect(&x.peer), "a started dial marks the slot busy");
+    let lost = s.bool();
+    if lost {
+        let r = result(s, ns, y.id);
+        let _ = dial_ends(&mut x, reason, false, r);
+    } else {
+        let o = y.peer.accept_request(&y.id, &x.id);
+        ck!(s, matches!(o, AcceptOutcome::Allow), "an idle node accepts a sync request");
+        ck!(s, running_accept(&y.peer), "an accepted request marks the slot busy");
+        let x_first = s.bool();
+        let rx = result(s, ns, y.id);
+        let ry = result(s, ns, x.id);
+        if x_first {
+            let fx = dial_ends(&mut x, reason, false, rx);
+            ck!(s, fx == Some(false), "the dialer's finish reports no resync when none was requested");
+            let fy = y.peer.finish(&Origin::Accept, ry);
+            ck!(s, fy.is_some(), "the acceptor's finish is expected");
+        } else {
+            let fy = y.peer.finish(&Origin::Accept, ry);
+            ck!(s, fy.is_some(), "the acceptor's finish is expected");
+            let fx = dial_ends(&mut x, reason, false, rx);
+            ck!(s, fx == Some(false), "the dialer's finish reports no resync when none was requested");
+        }
+    }
+    cv!(s, lost, "c11_single_dial: request lost");
+    cv!(s, !lost, "c11_single_dial: request delivered");
+    ck!(s, is_idle(&x.peer) && is_idle(&y.peer), "once nothing is in flight both nodes are idle for each other");
+    std::mem::forget(x);
+    std::mem::forget(y);
+}
+
+/// Family B: X and Y dial each other simultaneously.  Control flow is concrete per instance
+/// (flag bits F), ids and reasons are symbolic (either id order):
+///   bit0 XY_LOST   X's request never reaches Y        bit1 YX_LOST   Y's request never reaches X
+///   bit2 Y_ENDS_FIRST  (needs YX_LOST) Y's dial fails before X's request reaches Y
+///   bit3 X_ENDS_EARLY  X's dial ends (lost / declined / session done at X) before Y's request reaches X
+///   bit4 YACC_EARLY    (needs X's request accepted) Y's end of that session finishes before Y's request reaches X
+/// X's request is delivered first; the mirrored orders are covered by the symbolic id order.
+pub fn c11_simultaneous_dial<S: Src, const F: u8>(s: &mut S) {
+    let xy_lost = F & 1 != 0;
+    let yx_lost = F & 2 != 0;
+    let y_ends_first = F & 4 != 0 && yx_lost;
+    let x_ends_early = F & 8 != 0;
+    let yacc_early = F & 16 != 0;
+    let ns = NamespaceId::from(&[1u8; 32]);
+    let (idx, idy) = two_ids(s);
+    let mut x = Node { id: idx, peer: fresh_peer(ns) };
+    let mut y = Node { id: idy, peer: fresh_peer(ns) };
+    let (r1, r2) = (any_reason(s), any_reason(s));
+    ck!(s, x.peer.start_connect(r1) && y.peer.start_connect(r2), "idle slots let both dials start");
+    let mut y_dial_ended = false;
+    if y_ends_first {
+        let r = result(s, ns, x.id);
+        let _ = dial_ends(&mut y, r2, false, r);
+        y_dial_ended = true;
+    }
+    // X's request at Y
+    let mut xy_allowed = false;
+    let mut xy_declined = false;
+    let y_was_dialing = running_connect(&y.peer);
+    if !xy_lost {
+        match y.peer.accept_request(&y.id, &x.id) {
+            AcceptOutcome::Allow => xy_allowed = true,
+            AcceptOutcome::Reject(AbortReason::AlreadySyncing) => xy_declined = true,
+            AcceptOutcome::Reject(_) => ck!(s, false, "a busy node declines with AlreadySyncing only"),
+        }
+    }
+    let mut x_dial_ended = false;
+    let mut yacc_ended = !xy_allowed;
+    if x_ends_early {
+        let r = result(s, ns, y.id);
+        let _ = dial_ends(&mut x, r1, xy_declined, r);
+        x_dial_ended = true;
+    }
+    if yacc_early && xy_allowed {
+        let r = result(s, ns, x.id);
+        let _ = y.peer.finish(&Origin::Accept, r);
+        yacc_ended = true;
+    }
+    // Y's request at X
+    let mut yx_allowed = false;
+    let mut yx_declined = false;
+    let x_was_dialing = running_connect(&x.peer);
+    if !yx_lost {
+        match x.peer.accept_request(&x.id, &y.id) {
+            AcceptOutcome::Allow => yx_allowed = true,
+            AcceptOutcome::Reject(AbortReason::AlreadySyncing) => yx_declined = true,
+            AcceptOutcome::Reject(_) => ck!(s, false, "a busy node declines with AlreadySyncing only"),
+        }
+    }
+    let truly_simultaneous = !xy_lost && !yx_lost && y_was_dialing && x_was_dialing;
+    cv!(s, !truly_simultaneous || xy_allowed, "c11_simultaneous_dial: Y accepts");
+    cv!(s, !truly_simultaneous || yx_allowed, "c11_simultaneous_dial: X accepts");
+    if truly_simultaneous {
+        ck!(s, xy_allowed != yx_allowed, "when two nodes dial each other simultaneously exactly one request is accepted");
+    }
+    // a session is in progress from acceptance until either side has finished it
+    let s_xy = xy_allowed && !x_dial_ended && !yacc_ended;
+    ck!(s, !(s_xy && yx_allowed), "never two sessions in progress for one pair and document");
+    // everything still pending ends
+    if !x_dial_ended {
+        let r = result(s, ns, y.id);
+        let _ = dial_ends(&mut x, r1, xy_declined, r);
+    }
+    if !yacc_ended {
+        let r = result(s, ns, x.id);
+        let _ = y.peer.finish(&Origin::Accept, r);
+    }
+    if !y_dial_ended {
+        let r = result(s, ns, x.id);
+        let _ = dial_ends(&mut y, r2, yx_declined, r);
+    }
+    if yx_allowed {
+        let r = result(s, ns, y.id);
+        let _ = x.peer.finish(&Origin::Accept, r);
+    }
+    cv!(s, true, "c11_simultaneous_dial: reached the end");
+    ck!(s, is_idle(&x.peer) && is_idle(&y.peer), "once nothing is in flight both nodes are idle for each other");
+    std::mem::forget(x);
+    std::mem::forget(y);
+}
+
+/// Family C: X dials Y, the session runs, X's end finishes first and X immediately dials again
+/// (new sync report / resync) while Y has not yet finished its end.
+pub fn c11_redial_race<S: Src, const Y_FINISHED_FIRST: bool>(s: &mut S) {
+    let ns = NamespaceId::from(&[1u8; 32]);
+    let (idx, idy) = two_ids(s);
+    let mut x = Node { id: idx, peer: fresh_peer(ns) };
+    let mut y = Node { id: idy, peer: fresh_peer(ns) };
+    let r1 = any_reason(s);
+    ck!(s, x.peer.start_connect(r1), "idle slot lets the dial start");
+    let o = y.peer.accept_request(&y.id, &x.id);
+    ck!(s, matches!(o, AcceptOutcome::Allow), "an idle node accepts a sync request");
+    // X's end finishes
+    let rx = result(s, ns, y.id);
+    let _ = dial_ends(&mut x, r1, false, rx);
+    ck!(s, is_idle(&x.peer), "the dialer is idle after its end finished");
+    // X dials again; the request reaches Y before or after Y's end finished
+    let r2 = any_reason(s);
+    ck!(s, x.peer.start_connect(r2), "idle slot lets the re-dial start");
+    let y_finished_before_redial_arrives = Y_FINISHED_FIRST;
+    let ry = result(s, ns, x.id);
+    let ry_late = result(s, ns, x.id);
+    if y_finished_before_redial_arrives {
+        let _ = y.peer.finish(&Origin::Accept, ry);
+    } else {
+        std::mem::forget(ry);
+    }
+    let o2 = y.peer.accept_request(&y.id, &x.id);
+    let allowed = matches!(o2, AcceptOutcome::Allow);
+    ck!(s, allowed == y_finished_before_redial_arrives, "a node still busy with the previous session declines, a free one accepts");
+    if !y_finished_before_redial_arrives {
+        let _ = y.peer.finish(&Origin::Accept, ry_late);
+    } else {
+        std::mem::forget(ry_late);
+    }
+    // the second dial ends
+    let rx2 = result(s, ns, y.id);
+    if allowed {
+        let ry2 = result(s, ns, x.id);
+        let _ = dial_ends(&mut x, r2, false, rx2);
+        let _ = y.peer.finish(&Origin::Accept, ry2);
+    } else {
+        let _ = dial_ends(&mut x, r2, true, rx2);
+    }
+    cv!(s, Y_FINISHED_FIRST || !allowed, "c11_redial_race: the re-dial overtakes the acceptor's bookkeeping");
+    ck!(s, is_idle(&x.peer) && is_idle(&y.peer), "once nothing is in flight both nodes are idle for each other");
+    std::mem::forget(x);
+    std::mem::forget(y);
+}
+
+/// Family D: news reported while a session is running is refused and leads to exactly one
+/// follow-up dial when that session finishes (on the dialing and on the accepting side).
+pub fn c11_resync<S: Src>(s: &mut S) {
+    let ns = NamespaceId::from(&[1u8; 32]);
+    let (idx, idy) = two_ids(s);
+    let mut x = Node { id: idx, peer: fresh_peer(ns) };
+    let mut y = Node { id: idy, peer: fresh_peer(ns) };
+    let r1 = any_reason(s);
+    ck!(s, x.peer.start_connect(r1), "idle slot lets the dial start");
+    let o = y.peer.accept_request(&y.id, &x.id);
+    ck!(s, matches!(o, AcceptOutcome::Allow), "an idle node accepts a sync request");
+    // reports arrive during the session: k_x at X, k_y at Y (0..2 each), other dial reasons too
+    let kx = s.u8() % 3;
+    let ky = s.u8() % 3;
+    let other_x = any_reason(s);
+    let mut i = 0;
+    while i < 2 {
+        if i < kx {
+            ck!(s, !x.peer.start_connect(SyncReason::SyncReport), "a dial is refused while a session is running");
+        }
+        if i < ky {
+            ck!(s, !y.peer.start_connect(SyncReason::SyncReport), "a dial is refused while a session is running");
+        }
+        i += 1;
+    }
+    let other_tried = s.bool();
+    if other_tried && !matches!(other_x, SyncReason::SyncReport) {
+        ck!(s, !x.peer.start_connect(other_x), "a dial is refused while a session is running");
+    }
+    // both ends finish
+    let rx = result(s, ns, y.id);
+    let ry = result(s, ns, x.id);
+    let fx = dial_ends(&mut x, r1, false, rx);
+    let fy = y.peer.finish(&Origin::Accept, ry).map(|(_, r)| r);
+    cv!(s, kx > 0 && ky == 0, "c11_resync: report at the dialer only");
+    cv!(s, ky > 0, "c11_resync: report at the acceptor");
+    ck!(s, fx == Some(kx > 0), "the dialer's finish asks for a follow-up exactly if a sync report was refused during the session");
+    ck!(s, fy == Some(ky > 0), "the acceptor's finish asks for a follow-up exactly if a sync report was refused during the session");
+    // the follow-up dial (live.rs: `if resync { sync_with_peer(.., Resync) }`) starts exactly once
+    if fx == Some(true) {
+        ck!(s, x.peer.start_connect(SyncReason::Resync), "the follow-up dial starts");
+        ck!(s, !x.peer.start_connect(SyncReason::Resync), "and only once");
+        let rx2 = result(s, ns, y.id);
+        let f2 = dial_ends(&mut x, SyncReason::Resync, false, rx2);
+        ck!(s, f2 == Some(false), "the follow-up session's finish does not ask for another follow-up");
+    }
+    std::mem::forget(x);
+    std::mem::forget(y);
+}
+
+/// Family E: requests for documents that are not being synced are declined as not found; the
+/// `NamespaceStates` wrappers route to the per-peer slot only for syncing documents.
+pub fn c11_not_syncing<S: Src>(s: &mut S) {
+    let mut states = NamespaceStates::default();
+    let ns = NamespaceId::from(&s.arr::<32>());
+    let me = endpoint_id(s.arr());
+    let node = endpoint_id(s.arr());
+    ck!(s, !states.is_syncing(&ns), "a fresh state syncs nothing");
+    let o = states.accept_request(&me, &ns, node);
+    ck!(s, matches!(o, AcceptOutcome::Reject(AbortReason::NotFound)), "requests for documents that are not being synced are declined as not found");
+    ck!(s, !states.start_connect(&ns, node, any_reason(s)), "no dial starts for a document that is not being synced");
+    ck!(s, !states.is_syncing(&ns), "declining does not start syncing the document");
+    cv!(s, true, "c11_not_syncing: reached");
+    std::mem::forget(states);
+}
+
+/// Family S: bounded symbolic scheduler.  Each node dials the other at most once (whether, and
+/// why, is symbolic); then K scheduler steps pick, symbolically, any enabled event:
+/// request delivered / request lost / dial ends at the dialer / accepted session ends at the
+/// acceptor — for either direction.  Covers every interleaving of two overlapping dials,
+/// including "the dial ends before the competing request arrives".
+pub fn c11_scheduler<S: Src, const K: usize>(s: &mut S) {
+    let ns = NamespaceId::from(&[1u8; 32]);
+    let (idx, idy) = two_ids(s);
+    let mut n = [Node { id: idx, peer: fresh_peer(ns) }, Node { id: idy, peer: fresh_peer(ns) }];
+    // request state per direction d (0: X->Y, 1: Y->X)
+    // 0 = no dial, 1 = in flight, 2 = lost, 3 = declined (AlreadySyncing), 4 = allowed (session running)
+    let mut req = [0u8; 2];
+    let mut dial_ended = [true; 2];
+    let mut acc_ended = [true; 2];
+    let reasons = [any_reason(s), any_reason(s)];
+    let mut d = 0;
+    while d < 2 {
+        if s.bool() {
+            let ok = n[d].peer.start_connect(reasons[d]);
+            ck!(s, ok, "an idle peer slot always lets a dial start");
+            req[d] = 1;
+            dial_ended[d] = false;
+        }
+        d += 1;
+    }
+    let both = req[0] == 1 && req[1] == 1;
+    let mut decided_while_both_dialing = [false; 2];
+    let mut step = 0;
+    while step < K {
+        let ev = s.u8();
+        s.assume(ev < 8);
+        let d = (ev & 1) as usize; // direction: dialer d, acceptor 1-d
+        let a = 1 - d;
+        match ev >> 1 {
+            0 => {
+                // request delivered
+                if req[d] == 1 {
+                    let me = n[a].id;
+                    let from = n[d].id;
+                    let was_dialing = running_connect(&n[a].peer);
+                    match n[a].peer.accept_request(&me, &from) {
+                        AcceptOutcome::Allow => {
+                            req[d] = 4;
+                            acc_ended[d] = false;
+                        }
+                        AcceptOutcome::Reject(AbortReason::AlreadySyncing) => req[d] = 3,
+                        AcceptOutcome::Reject(_) => ck!(s, false, "a busy node declines with AlreadySyncing only"),
+                    }
+                    decided_while_both_dialing[d] = was_dialing && !dial_ended[a] && req[a] == 1;
+                }
+            }
+            1 => {
+                // request lost in the network
+                if req[d] == 1 {
+                    req[d] = 2;
+                }
+            }
+            2 => {
+                // the dial ends at the dialer
+                if !dial_ended[d] && req[d] >= 2 {
+                    let peer = n[a].id;
+                    let r = result(s, ns, peer);
+                    let _ = dial_ends(&mut n[d], reasons[d], req[d] == 3, r);
+                    dial_ended[d] = true;
+                }
+            }
+            _ => {
+                // the accepted session ends at the acceptor
+                if req[d] == 4 && !acc_ended[d] {
+                    let peer = n[d].id;
+                    let r = result(s, ns, peer);
+                    let _ = n[a].peer.finish(&Origin::Accept, r);
+                    acc_ended[d] = true;
+                }
+            }
+        }
+        // safety: never two sessions in progress at once (in progress = accepted, neither end finished)
+        let s0 = req[0] == 4 && !dial_ended[0] && !acc_ended[0];
+        let s1 = req[1] == 4 && !dial_ended[1] && !acc_ended[1];
+        ck!(s, !(s0 && s1), "never two sessions in progress for one pair and document");
+        step += 1;
+    }
+    if both && decided_while_both_dialing[0] && decided_while_both_dialing[1] {
+        cv!(s, true, "c11_scheduler: simultaneous dial, both requests decided while both were dialing");
+        ck!(s, (req[0] == 4) != (req[1] == 4) || req[0] < 3 || req[1] < 3,
+            "when two nodes dial each other simultaneously exactly one request is accepted");
+    }
+    let quiescent = req[0] != 1 && req[1] != 1 && dial_ended[0] && dial_ended[1] && acc_ended[0] && acc_ended[1];
+    cv!(s, quiescent && both, "c11_scheduler: both dialed and everything finished");
+    if quiescent {
+        ck!(s, is_idle(&n[0].peer) && is_idle(&n[1].peer), "once nothing is in flight both nodes are idle for each other");
+    }
+    std::mem::forget(n);
+}
